@@ -17,15 +17,15 @@ CHECKS = {
                 text="Every cost table over small integer alphabets ({0,1,3}, {-2,0,3}, {0,1,1e14}) up to T*K<=8 (+5x2; thorough T*K<=12) x every switching cost in the menu (scalars incl. 0.5 in three numeric types, every vector over {0,2}^T and {0,1,5}^T), float64 C/F-ordered and int64/float32/int32 tables, through the real kernel interpreted and JIT-compiled, compared exactly with brute force over all K^T sequences; a one-hot family up to T=10 (thorough 14) against a forward DP; and call sequences with the same K and varying T in one process. Bounded-exhaustive: complete below the bound, silent above it.",
                 note="trusted: NumPy integer-valued float arithmetic is exact; the brute-force oracle; inputs above the size bound and non-integer costs are not covered here (C09/C07 cover real-valued tables by objective comparison)"),
     "C09": dict(engine=E2, cat="model_checking", ref="§3.2, §4 C09",
-                technique="explicit-state model of the main loop (fresh-state transition table) + conformance replay of every trace against the real fit_stacked_data under scripted initial labelling / donor draw / pool",
-                text="Every initial labelling (K^T') x iteration limit x donor script within the deviation bound is run through the real main loop with scripted seams; each run is checked for round bounds, phase order and chaining, repopulation timing, stop-only-at-fixed-point, returned == last round's scored labelling/cost/MRFs, optimality of the returned labelling under the returned model (reference DP on an independently computed likelihood table), and bitwise conformance of the whole label path with the fresh-state model.",
+                technique="explicit-state model of the main loop (fresh-state transition table) + conformance replay of every trace against the real fit_stacked_data under scripted initial labelling / donor draw / pool, plus exhaustive exploration of the loop's control skeleton over scripted relabel outputs",
+                text="Every initial labelling (K^T') x iteration limit x donor script within the deviation bound is run through the real main loop with scripted seams; each run is checked for round bounds, phase order and chaining, repopulation timing, stop-only-at-fixed-point, returned == last round's scored labelling/cost/MRFs, optimality of the returned labelling under the returned model (reference DP on an independently computed likelihood table), and bitwise conformance of the whole label path with the fresh-state model. In addition the relabel phase's output is treated as an environment answer: every label sequence over a 5-labelling alphabet (incl. an emptied and a singleton cluster) up to the iteration limit (4; thorough 6) x two donor draws is run through the real loop, deciding the stop rule, repopulation timing and what is returned independently of the data.",
                 note="trusted: the seams are the only nondeterminism (RNG states verified untouched); the reference Gaussian log-density and DP; driver data sets are tiny (T'<=10, NW<=4), larger inputs are not covered"),
     "C12": dict(engine=E2, cat="model_checking", ref="§4 C12",
                 technique="main-loop explorer with a statistics/optimiser-argument monitor against a two-pass fsum reference, on every round of every enumerated run",
-                text="On every round and cluster of every enumerated run (incl. post-repopulation rounds, biased and unbiased, scalar and matrix lambda) the statistics-phase output equals the reference mean/covariance of exactly the windows labelled k, the optimiser is called with that covariance, the user's lambda, W and N, and the stored MRF is the optimiser's answer for that cluster.",
+                text="On every round and cluster of every enumerated run (incl. post-repopulation rounds, biased and unbiased, scalar and matrix lambda) the statistics-phase output equals the reference mean/covariance of exactly the windows labelled k, the optimiser is called with that covariance, the user's lambda, W and N, and the stored MRF is the optimiser's answer for that cluster; drivers include 1e-4 / 1e3 scaled data, a large additive offset, a biting covariance floor, and three different problems run back to back in one process from the same initial labelling.",
                 note="trusted: reference statistics (math.fsum two-pass); singleton clusters under the unbiased estimator are skipped (undefined)"),
     "C13": dict(engine=E3, cat="model_checking", ref="§3.3, §4 C13",
-                technique="BFS over operation histories on real ModelState objects (dedup on content+aliasing digest) with invariants on every live object, plus the same invariants at every phase boundary of enumerated main-loop runs",
+                technique="BFS over operation histories on real ModelState objects (assign via copy idiom, direct assignment on owned states, deep/shallow copy, repopulate, statistics, optimise, relabel; dedup on content+aliasing digest) with invariants on every live object, plus the same invariants at every phase boundary of enumerated and control-skeleton main-loop runs",
                 text="All operation sequences up to depth 6 (thorough 8) over assign/copy/repopulate/statistics/optimise/relabel on real objects: partition invariant on every state produced, every earlier live state unchanged by every operation, deep copies independent under mutation of every mutable component; and the same at every phase boundary of every E2 run.",
                 note="trusted: the digest covers every field of ModelState/ClusterParameters/UserArguments listed in seams.py; a new mutable field would need adding"),
     "C10": dict(engine=E1, cat="exploration", ref="§4 C10",
@@ -73,7 +73,7 @@ CHECKS = {
                 text="Every (N,W,K) with N<=3, W<=6, K in {2,3} x three lengths (single) and every ordered tuple of up to 3 (thorough up to 6) unequal-length series (joint): label count, exact -1 margins for odd and even W, label range, MRF count and shape, echoed K and W, per-series lists equal to their slice of the joint labelling.",
                 note="trusted: scripted contiguous initial labelling so that runs complete; runs that raise are counted, not judged"),
     "C14": dict(engine=E4, cat="exploration", ref="§3.4, §4 C14",
-                technique="enumeration of pool schedules (completion permutation x finished-prefix per round) on a virtual pool, forced completion permutations x worker counts on the real multiprocessing.Pool (turn-taking handshake), and all call histories up to depth h in fresh processes; bitwise result comparison",
+                technique="enumeration of pool schedules (completion permutation x finished-prefix per round) on a virtual pool AND on the real multiprocessing.Pool (turn-taking handshake with a per-round allowance), worker counts 1..8 x multiprocessing on/off incl. a probe with distinct cluster sizes, same-seed repeats incl. a repopulating probe, and all call histories up to depth h (6 call shapes incl. in-process solver calls and the same data from another seed) in fresh processes; bitwise result comparison",
                 text="Every schedule script within the stated bound on the virtual pool; every feasible completion permutation for num_processors 1..8 with multiprocessing off/on on the real pool; same-seed repeats in and across processes; every history of up to 2 (thorough 3) preceding calls from 4 call shapes. Complete results must be bit-identical to the single-pool reference.",
                 note="trusted: a schedule whose arrival log differs from its script is a harness error; task-to-worker assignment observed not forced; BLAS pinned to one thread"),
     "C18": dict(engine=E1, cat="exploration", ref="§4 C18",
@@ -89,7 +89,7 @@ CHECKS = {
                 text="Every small table through the labelling kernel, the likelihood table over shapes x memory layouts, and complete scripted runs for every 4th (thorough: every) initial labelling are computed in three execution modes and five thread counts and must agree (labels and integer costs identically, likelihoods within rounding and with the reference); iteration-order independence of the parallel loop is enumerated over all permutations for T<=5.",
                 note="trusted: interleaving inside numba's compiled parallel loop is not controlled (thread count and iteration order are)"),
     "C20": dict(engine=E4, cat="fault_enumeration", ref="§3.4, §4 C20",
-                technique="fault enumeration: an exception injected at every (round, cluster) optimisation task and every (round, phase) on real and virtual pools in three pool modes, each scenario in a fresh process with a watchdog, /proc child scan while the exception is held, and a clean follow-up call",
+                technique="fault enumeration: exceptions of 14 classes (incl. argument-less ones) injected at every (round, cluster) optimisation task and every (round, phase) on real and virtual pools in three pool modes, donor shortage (none / partial), wrong-kind inputs in four container types; each scenario in a fresh process with a repeating watchdog (a hang is a verdict), /proc child scan while the exception is held, and a clean follow-up call",
                 text="Every fault point r<3 x k<3 x {Pool(1), multiprocessing P=K, P=2, virtual pool}, every phase x round, no-donor and wrong-kind inputs: the call raises the expected error (type and message), returns nothing, does not hang, leaves no live worker while the exception is referenced, and a clean call afterwards equals the clean reference bitwise.",
                 note="trusted: /proc scan for live children; workers killed outright are out of scope (CPython Pool blocks forever)"),
 }
